@@ -798,6 +798,8 @@ def rand_hwmain(rng, nul=False, ipshaped=None):
     gip = '10.9.%d.%d' % (rng.randrange(256), rng.randrange(1, 255))
     rip = '10.8.%d.%d' % (rng.randrange(256), rng.randrange(1, 255))
     place = 'etc' if nul else rng.choice(['seed', 'etc', 'both'])   # a NUL can only come from the remote file
+    if ipshaped is not None and place == 'seed':
+        place = 'etc'                       # the directed cases carry the token as a remote hosts-file NAME
     seeds = (odd if place in ('seed', 'both') else []) + [good]
     etc = '127.0.0.1 localhost\n'
     if place in ('etc', 'both'):
